@@ -35,6 +35,7 @@ def base_doc(tmp: Path, *, trace_mode: str, rs: Optional[Dict[str, Any]], detail
     nodes = [
         {"processor": "FloatValueDataSource"},
         {"processor": "VTouchOperation"},
+        {"processor": "VInterruptOperation"},
         {"processor": "FloatMultiplyOperation"},
         {"processor": "FloatCollectValueProbe", "context_key": "seen"},
         {"processor": "FloatMultiplyOperationWithDefault"},       # would pick up a leaked `factor`... uses ctx factor
@@ -88,14 +89,18 @@ def launch_case(job: Dict[str, Any]) -> Dict[str, Any]:
     tmp = Path(tempfile.mkdtemp(prefix="vlaunch-"))
     try:
         factors: List[Any] = [float(i + 2) for i in range(planned)]
-        if fail_at:
+        triggers = [0.0] * planned
+        interrupt = job.get("failKind") == "interrupt"
+        if fail_at and interrupt:
+            triggers[fail_at - 1] = 1.0
+        elif fail_at:
             factors[fail_at - 1] = "bad"
-        rs = {"combine": "combinatorial", "max_runs": 100, "blocks": [{"mode": "by_position", "context": {"factor": factors}}]}
+        rs = {"combine": "combinatorial", "max_runs": 100, "blocks": [{"mode": "by_position", "context": {"factor": factors, "trigger": triggers}}]}
         doc = base_doc(tmp, trace_mode=job["trace_mode"], rs=rs, detail=job["detail"])
         (tmp / "p.yaml").write_text(yaml.safe_dump(doc, sort_keys=False))
         argv = ["run", str(tmp / "p.yaml"), "--context", "value=1.5"] + job["launch_args"]
         code, out, err = run_cli(argv, tmp)
-        exp_code = 4 if fail_at else 0
+        exp_code = (5 if interrupt else 4) if fail_at else 0
         if code != exp_code:
             viol.append(("exit", f"launch exit {code}, expected {exp_code}; stderr {err[-200:]!r}"))
         recs = read_trace(tmp)
@@ -113,8 +118,9 @@ def launch_case(job: Dict[str, Any]) -> Dict[str, Any]:
             summ = e.get("summary", {})
             if summ.get("planned_runs") != planned or summ.get("completed_runs") != completed:
                 viol.append(("counts", f"run_space_end summary {summ}, truth planned={planned} completed={completed}"))
-            if bool(fail_at) != (summ.get("status") == "failed"):
-                viol.append(("counts", f"run_space_end status {summ.get('status')!r} but failing run = {fail_at}"))
+            want_status = ("interrupted" if interrupt else "failed") if fail_at else None
+            if summ.get("status") != want_status:
+                viol.append(("counts", f"run_space_end status {summ.get('status')!r}, expected {want_status!r} (failing run = {fail_at}, {job.get('failKind')})"))
             if e.get("run_space_launch_id") != s.get("run_space_launch_id") or e.get("run_space_attempt") != s.get("run_space_attempt"):
                 viol.append(("fk", "run_space_end launch id/attempt differ from run_space_start"))
             if job.get("expect_launch_id") and s.get("run_space_launch_id") != job["expect_launch_id"]:
@@ -128,7 +134,7 @@ def launch_case(job: Dict[str, Any]) -> Dict[str, Any]:
         final_sink = sink.read_text() if sink.exists() else None      # written by the last completed run
         for i, rr in enumerate(runs):
             st = rr[0]
-            want_ctx = {"value": 1.5, "factor": factors[i]}
+            want_ctx = {"value": 1.5, "factor": factors[i], "trigger": triggers[i]}
             if st.get("run_space_launch_id") != launch_id or st.get("run_space_attempt") != job["attempt"] \
                     or st.get("run_space_index") != i or st.get("run_space_context") != want_ctx:
                 viol.append(("fk", f"pipeline_start of run {i}: launch_id/attempt/index/context = "
@@ -140,7 +146,8 @@ def launch_case(job: Dict[str, Any]) -> Dict[str, Any]:
                 d2["pipeline"]["nodes"][-1]["parameters"]["path"] = str(tmp / "out.txt")   # same sink path => same node config
                 (t2 / "p.yaml").write_text(yaml.safe_dump(d2, sort_keys=False))
                 launch_sink = final_sink if (i == completed - 1) else None
-                c2, _o, e2 = run_cli(["run", str(t2 / "p.yaml"), "--context", "value=1.5", "--context", f"factor={factors[i]}"], t2)
+                c2, _o, e2 = run_cli(["run", str(t2 / "p.yaml"), "--context", "value=1.5", "--context", f"factor={factors[i]}",
+                                      "--context", f"trigger={triggers[i]}"], t2)
                 solo = read_trace(t2)
                 a, b = strip_fk(rr), strip_fk(solo)
                 if a != b:
@@ -283,8 +290,8 @@ def check(tier: str) -> int:
                 "non-trivial = launches with >= 2 runs or a failing run")
     run.assumptions = ["volatile fields and the run-space foreign keys are removed before comparing a launch run with its standalone run",
                        "launches run in-process through semantiva.cli.main (drivers garbage-collected before files are read)"]
-    tlc_check(run)
-    cases = [c for c in emitted_cases() if c["sc"]["traced"] and c["sc"]["runSpace"] == "ok" and c["sc"]["defect"] == "none"
+    tlc_check(run, tier)
+    cases = [c for c in emitted_cases(tier) if c["sc"]["traced"] and c["sc"]["runSpace"] == "ok" and c["sc"]["defect"] == "none"
              and not (c["sc"]["validate"] or c["sc"]["dryRun"] or c["sc"]["rsDryRun"])]
     if len(cases) < 6:
         raise core.MachineryError("too few launch behaviours emitted")
@@ -295,7 +302,7 @@ def check(tier: str) -> int:
         variants += [("file", ["--run-space-attempt", "2"], 2, None), ("file", ["--run-space-idempotency-key", "IDEM2"], 1, None)]
     for c in cases:
         for vi, (mode, args, attempt, exp) in enumerate(variants):
-            jobs.append({"planned": c["sc"]["planned"], "failAt": c["sc"]["failAt"], "trace_mode": mode, "launch_args": args,
+            jobs.append({"planned": c["sc"]["planned"], "failAt": c["sc"]["failAt"], "failKind": c["sc"]["failKind"], "trace_mode": mode, "launch_args": args,
                          "attempt": attempt, "expect_launch_id": exp, "detail": ["hash", "all", "repr"][vi % 3],
                          "spec_records": c["records"]})
     for res in pmap(launch_chunk, jobs, chunk=2, tasks_per_child=4):
@@ -305,7 +312,7 @@ def check(tier: str) -> int:
             run.nontrivial += (j["planned"] >= 2 or j["failAt"] > 0)
             for k, m in r["viol"]:
                 run.violation(f"{k}:{'failing' if j['failAt'] else 'ok'}-launch",
-                              f"launch planned={j['planned']} failAt={j['failAt']} mode={j['trace_mode']} args={j['launch_args']}: {m}", {"job": j})
+                              f"launch planned={j['planned']} failAt={j['failAt']}({j['failKind']}) mode={j['trace_mode']} args={j['launch_args']}: {m}", {"job": j})
     run.traces_validated = run.evaluations
     identity_laws(run)
     run.sample({"job": {k: v for k, v in jobs[0].items() if k != "spec_records"}})
